@@ -31,16 +31,40 @@ PhylipHeader(b0) ==
   IN IF j1 > i1 /\ j1 - i1 <= 8 /\ i2 > j1 /\ j2 > i2 /\ j2 - i2 <= 8 /\ (j2 = Len(b) + 1 \/ b[j2] \in Blank)
      THEN [ok |-> TRUE, n |-> NatOf(b, i1, j1), len |-> NatOf(b, i2, j2)]
      ELSE [ok |-> FALSE, n |-> 0, len |-> 0]
-\* Nexus: every "<key> = <digits>" in the input, key in upper case
-DeclaredValues(b0, key) ==
+\* Nexus: the counts the input declares.  A declaration is "<key> = <digits>" inside a DIMENSIONS command (the text
+\* from the previous ';' starts with that word) of a TAXA, DATA or CHARACTERS block (the last BEGIN before it names one
+\* and no END lies in between), outside a comment; when a command repeats the key its last value counts, and when
+\* several blocks of one kind declare it the last block does (io/nexus: parseTaxa / parseData overwrite the value).
+\* kinds: "taxa" | "data".  The result is a set with at most one value per kind.
+WordEnd == Blank \cup {59, 61, 91, 93}
+WordAt(b, i, w) == /\ i >= 1 /\ i + Len(w) - 1 <= Len(b) /\ UpS(SubSeq(b, i, i + Len(w) - 1)) = w
+                   /\ (i = 1 \/ b[i - 1] \in WordEnd) /\ (i + Len(w) > Len(b) \/ b[i + Len(w)] \in WordEnd)
+sBEGIN == <<66, 69, 71, 73, 78>>  sEND == <<69, 78, 68>>  sDIM == <<68, 73, 77, 69, 78, 83, 73, 79, 78, 83>>
+sTAXA == <<84, 65, 88, 65>>  sDATA == <<68, 65, 84, 65>>  sCHARS == <<67, 72, 65, 82, 65, 67, 84, 69, 82, 83>>
+MaxOf(S) == CHOOSE x \in S : \A y \in S : y <= x
+Declared(b0, key, kind) ==
   LET b == Visible(b0)
       K == Len(key)
-      at(i) == i + K - 1 <= Len(b) /\ UpS(SubSeq(b, i, i + K - 1)) = key /\ (i = 1 \/ b[i - 1] \in Blank \cup {59})
       val(i) == LET e1 == SkipSet(b, i + K, {32, 9})
                     e2 == IF e1 <= Len(b) /\ b[e1] = 61 THEN SkipSet(b, e1 + 1, {32, 9}) ELSE 0
                     e3 == IF e2 = 0 THEN 0 ELSE SkipDigits(b, e2)
                 IN IF e2 # 0 /\ e3 > e2 /\ e3 - e2 <= 8 THEN NatOf(b, e2, e3) ELSE -1
-  IN {val(i) : i \in {i \in 1..Len(b) : at(i)}} \ {-1}
+      cmdStart(i) == LET S == {j \in 1..(i - 1) : b[j] = 59} IN IF S = {} THEN 1 ELSE MaxOf(S) + 1
+      cmdEnd(i) == LET S == {j \in i..Len(b) : b[j] = 59} IN IF S = {} THEN Len(b) + 1 ELSE CHOOSE j \in S : \A k \in S : j <= k
+      inDim(i) == WordAt(b, SkipSet(b, cmdStart(i), Blank), sDIM)
+      inComment(i) == \E j \in 1..(i - 1) : b[j] = 91 /\ \A k \in (j + 1)..(i - 1) : b[k] # 93
+      blockOf(i) == LET B == {j \in 1..(i - 1) : WordAt(b, j, sBEGIN)} IN
+                    IF B = {} THEN "none"
+                    ELSE LET j == MaxOf(B)
+                             n == SkipSet(b, j + 5, Blank)
+                         IN IF \E k \in j..(i - 1) : WordAt(b, k, sEND) THEN "none"
+                            ELSE IF WordAt(b, n, sTAXA) THEN "taxa"
+                            ELSE IF WordAt(b, n, sDATA) \/ WordAt(b, n, sCHARS) THEN "data" ELSE "none"
+      cand == {i \in 1..Len(b) : WordAt(b, i, key) /\ val(i) # -1}
+      good == {i \in cand : /\ inDim(i) /\ ~inComment(i) /\ blockOf(i) = kind
+                             /\ ~\E i2 \in cand : i2 > i /\ i2 < cmdEnd(i)}
+  IN IF good = {} THEN {} ELSE {val(MaxOf(good))}
+DeclaredValues(b0, key) == Declared(b0, key, "taxa") \cup Declared(b0, key, "data")
 sNTAX == <<78, 84, 65, 88>>
 sNCHAR == <<78, 67, 72, 65, 82>>
 
@@ -54,7 +78,9 @@ HeaderOK(c, o) ==
          LET h == PhylipHeader(c.bytes) IN h.ok => ((IF c.pol = 0 THEN o.nb = h.n ELSE o.nb <= h.n) /\ o.len = h.len)
     [] c.fmt = "nexus" ->
          LET nt == DeclaredValues(c.bytes, sNTAX)  nc == DeclaredValues(c.bytes, sNCHAR)
-         IN (nt # {} => (IF c.pol = 0 THEN o.nb \in nt ELSE \E x \in nt : o.nb <= x)) /\ (nc # {} => o.len \in nc)
+         \* every NTAX the input declares (TAXA block, DATA / CHARACTERS block) and every NCHAR: the parser compares each with
+         \* what it read, so a success agrees with all of them
+         IN (\A x \in nt : IF c.pol = 0 THEN o.nb = x ELSE o.nb <= x) /\ (\A x \in nc : o.len = x)
     [] OTHER -> TRUE
 \* e = [c: [fmt, strict, pol, alpha, plen, bytes], kind, outs, part]
 OutcomeChecks(e) ==
